@@ -306,6 +306,18 @@ KERNELS = [
     dict(name="CeilPrivLenNew", props=["C03", "C19"], file="_gkdi.py", func="GroupKeyEnvelope.new_kek", loc=("assign", "private_key"),
          typ="Nat", subst={"self.private_key_length": "n"}, params="(n : Nat)", obl="(n : Nat)", call="n", model="(n + 7) / 8",
          imports=["Model.Py"], unfold=[], unwrap_call="os.urandom"),
+    # _client.KeyCache: the cover test of _get_key and the "later" test of _store_key
+    dict(name="CacheCover", props=["C10", "C02"], file="_client.py", func="KeyCache._get_key", kind="prop",
+         loc=("if_containing", "seed_key.l1 > l1"), typ="Nat",
+         subst={"seed_key": "True", "seed_key.l1": "a", "seed_key.l2": "b", "l1": "r1", "l2": "r2"},
+         params="(a b r1 r2 : Nat)", obl="(a b r1 r2 : Nat)", call="a b r1 r2", model="Cache.Pos.le ⟨r1, r2⟩ ⟨a, b⟩",
+         imports=["Model.Cache"], unfold=["Cache.Pos.le"], tactic="simp only [true_and]; constructor <;> intro h <;> omega"),
+    dict(name="CacheLater", props=["C10"], file="_client.py", func="KeyCache._store_key", kind="prop",
+         loc=("if_containing", "existing"), typ="Nat",
+         subst={"existing": "hasEx", "key.l1": "k1", "key.l2": "k2", "existing.l1": "a", "existing.l2": "b"},
+         params="(hasEx : Prop) (k1 k2 a b : Nat)", obl="(hasEx : Prop) (k1 k2 a b : Nat)", call="hasEx k1 k2 a b",
+         model="(¬ hasEx ∨ Cache.Pos.lt ⟨a, b⟩ ⟨k1, k2⟩)", imports=["Model.Cache"], unfold=["Cache.Pos.lt"],
+         tactic="simp only []; by_cases h : hasEx <;> simp only [h, not_true_eq_false, not_false_eq_true, false_or, true_or] <;> omega"),
     dict(name="TlvLowTag", props=["C07", "C06"], file="_asn1.py", func="_pack_asn1", kind="prop",
          loc=("if_containing", "tag_number"), typ="Nat", subst={"tag_number": "n"},
          params="(n : Nat)", obl="(n : Nat)", call="n", model="(n < 31)", imports=["Model.Asn1"],
